@@ -4,7 +4,8 @@
              and ownership transfers) are all released by the owner's destructor
   D2 R-PAIR  every exit of orc_compiler_compile_program releases the compiler
              and its scratch; both release sites release the same set
-  D3 R-PAIR  results of _orc_getenv / strsplit are freed by their callers
+  D3 R-PAIR  results of _orc_getenv / strsplit are freed by their callers; every block allocated into a local variable is
+             freed, returned or handed over on every path to an exit (all library functions)
   D4 R-SET   a setter that stores a fresh allocation into an owning field
              releases (or refuses over) the previous value
   D5 R-MOVE  ownership transfers: take_code nulls the field; asm_code is not
@@ -178,6 +179,61 @@ def run(ctx):
                       "the string returned by %s() is never freed on: %s" % (helper, describe_path(f, paths[0]) if paths else ""), line=call.line)
     if n3 < 3:
         raise AnalysisBroken("expected >=3 callers of _orc_getenv/strsplit, found %d" % n3)
+
+    # ---- D3b local allocations -------------------------------------------------------
+    # A block allocated into a LOCAL variable must, on every path to an exit of the function, be freed, returned, stored
+    # somewhere that outlives the call (field, global, out-parameter, array element) or handed to a callee that is not known
+    # to be non-owning.  (Early returns added in front of the cleanup are the classic way to break this.)
+    ALLOCS = ("orc_malloc", "malloc", "calloc", "strdup", "_strndup", "orc_strdup")
+    NON_OWNING = {"memset", "memcpy", "memmove", "strcpy", "strncpy", "strcat", "sprintf", "snprintf", "vsnprintf", "strlen", "strcmp", "strncmp",
+                  "fprintf", "printf", "qsort", "orc_debug_print", "mkstemp", "unlink", "strchr", "strstr", "strtol", "strtod"}
+    # functions that hand out a fresh block: they return a local that was assigned from an allocator (fixpoint)
+    ALLOCS = set(ALLOCS)
+    changed = True
+    while changed:
+        changed = False
+        for g in funcs:
+            if g.name in ALLOCS or "*" not in (g.ret or ""):
+                continue
+            fresh = {assigned_var(c)[0] for c in g.calls() if c.name in ALLOCS}
+            rets = [strip_casts(r.c[0]) for r in g.walk() if r.k == "ReturnStmt" and r.c and r.c[0] is not None]
+            if fresh and any(r is not None and r.k == "DeclRefExpr" and r.name in fresh for r in rets):
+                ALLOCS.add(g.name)
+                changed = True
+    rep.extra["allocating_functions"] = sorted(ALLOCS)
+    n3b = 0
+    for f in funcs:
+        locs = {x.name for x in f.walk() if x.k == "VarDecl" and not x.get("static")}
+        for c in f.calls():
+            if c.name not in ALLOCS:
+                continue
+            var, st = assigned_var(c)
+            if var is None or var not in locs:
+                continue
+
+            def settles(e, v=var):
+                if e.k == "CallExpr":
+                    if e.name in ("free", "orc_free") and any(a is not None and access_path(a) == v for a in e.args()):
+                        return True
+                    if e.name and e.name not in NON_OWNING and e.name not in ALLOCS and any(a is not None and access_path(a) == v for a in e.args()):
+                        return True                     # handed to a callee that may take ownership
+                    return False
+                if e.k == "ReturnStmt" and e.c and e.c[0] is not None and v in {access_path(x) for x in e.c[0].walk()}:
+                    return True
+                if e.k == "BinaryOperator" and e.op == "=" and access_path(e.c[1]) == v:
+                    l = strip_casts(e.c[0])
+                    lp = access_path(l) or ""
+                    if l is not None and (l.k in ("MemberExpr", "ArraySubscriptExpr", "UnaryOperator") or lp not in locs):
+                        return True                     # stored into a field / array element / *out / global
+                return False
+            n3b += 1
+            paths = live_exit_paths(f, c, var, {"NULL"}, settles, None)
+            rep.check(not paths, "D3b-LOCAL-ALLOC", where(f), "%s->%s" % (c.name, var),
+                      "the block allocated into `%s` is freed, returned or handed over on every path" % var,
+                      "%s allocates `%s` with %s and can return without freeing or handing it over (%s): a leak per call on that path" %
+                      (f.name, var, c.name, describe_path(f, paths[0]) if paths else ""), line=c.line)
+    if n3b < 10:
+        raise AnalysisBroken("only %d local allocations found in the library" % n3b)
 
     # ---- D4 setters -------------------------------------------------------------
     n4 = 0
